@@ -20,7 +20,7 @@ ASSUMPTIONS = [
     "float32 tolerance 1e-5*scale on the nearest-point clause",
     "DPSK-type demodulators are judged on the normalised differential variable z/|z| (|z|>1e-3)",
 ]
-REQUIRED = ["hard:nearest point", "soft:LLR*sigma^2/Delta constant and positive", "soft:sign agrees with hard decision", "soft:per-symbol noise_var = scalar"]
+REQUIRED = ["hard:nearest point", "soft:LLR*sigma^2/Delta constant and positive", "soft:sign agrees with hard decision", "soft:per-symbol noise_var = scalar", "soft:1-D call = batched call"]
 JOBS = {"quick": 8, "thorough": 16}
 TIMEOUT = {"quick": 900, "thorough": 3600}
 
@@ -229,5 +229,18 @@ def run_unit(ctx, u):
                 ctx.check(ok, "soft:per-symbol noise_var = scalar", f"{kc}|{name}|soft:per-symbol noise_var = scalar|differs", spec=s, max_abs_diff=float(np.abs(llr_ps - exp).max()))
         except Exception as e:  # noqa: BLE001
             ctx.violation(f"{kc}|{name}|soft:per-symbol noise_var = scalar|raised:{type(e).__name__}", spec=s, error=str(e)[:300])
+    # ---- layout: the soft output of an un-batched (1-D) sequence equals row 0 of the same sequence sent as a (1, N) batch
+    seq_np = np.array([complex(rng.gauss(0, 0.8), rng.gauss(0, 0.8)) for _ in range(24)]) * views[0][1].scale
+    seq = t(seq_np.astype(np.complex64))
+    for nv in (0.3, torch.tensor(2.0)):
+        ctx.case("layout", modems.cfg(s), float(nv))
+        try:
+            bat = call(seq.reshape(1, -1), nv)
+            one = call(seq, nv)
+        except Exception as e:  # noqa: BLE001
+            ctx.violation(f"{kc}|layout|soft:1-D call = batched call|raised:{type(e).__name__}", spec=s, error=str(e)[:300])
+            continue
+        ok = one.numel() == bat.numel() and bool(torch.allclose(one.reshape(-1).double(), bat.reshape(-1).double(), rtol=1e-5, atol=1e-6))
+        ctx.check(ok, "soft:1-D call = batched call", f"{kc}|layout|soft:1-D call = batched call|differs", spec=s, one_d=one.reshape(-1)[:8], batched=bat.reshape(-1)[:8], shapes=[list(one.shape), list(bat.shape)])
     if s["id"] % 15 == 0:
         ctx.sample({"scheme": modems.cfg(s), "views": [v[0] for v in views], "points": int(len(pts)), "noise_vars": [1e-3, 1.0, 1e3]})
